@@ -13,9 +13,10 @@ import (
 	"github.com/EliCDavis/vector/vector3"
 )
 
-// Shape is one analytic shape of a "shape" case. All reals are integers in
-// 1/1000 world units. t = sphere: centre P, radius R; box: centre P, full
-// size Q; line: from P to Q, radius R. S is the field strength.
+// Shape is one analytic shape of a "shape" case. Lengths are integers in
+// 1/Unit world units (Case.Unit, 1000 unless a flavour needs finer ones).
+// t = sphere: centre P, radius R; box: centre P, full size Q; line: from P to
+// Q, radius R. S is the field strength in 1/1000.
 type Shape struct {
 	T string `json:"t"`
 	P []int  `json:"p"`
@@ -45,9 +46,11 @@ type Case struct {
 	Attr string `json:"attr,omitempty"` // attribute the field is registered under
 
 	// shape
-	Shapes []Shape `json:"shapes,omitempty"`
-	Org    []int   `json:"org,omitempty"`   // projection origin, 1/1000 units
-	Scale  int     `json:"scale,omitempty"` // projection: integer units per world unit
+	Shapes  []Shape `json:"shapes,omitempty"`
+	Unit    int     `json:"unit,omitempty"`    // denominator of the shapes' lengths and of Org
+	Flavour string  `json:"flavour,omitempty"` // generator label (reports only)
+	Org     []int   `json:"org,omitempty"`     // projection origin, 1/Unit world units
+	Scale   int     `json:"scale,omitempty"`   // projection: integer units per world unit
 
 	// prim
 	Prim  string `json:"prim,omitempty"`
@@ -70,12 +73,13 @@ type Line struct {
 	Tris  [][]int         `json:"tris"`  // vertex numbers of every triangle of the returned mesh
 	Pos   [][]int         `json:"pos"`   // per vertex: projected position
 	Fd    []int           `json:"fd"`    // shape: per vertex (field(v) - threshold) * 1000, clamped to +-50000
+	Off   [][]int         `json:"off"`   // shape: per vertex offset from the nearest lattice point, 1e-5 cells
 	Cls   []int           `json:"cls"`   // prim: per vertex position class (coincident positions merged at 1e-6)
 	Nrm   [][]int         `json:"nrm"`   // prim: per vertex normal * 256 ([] when the mesh has no normals)
 }
 
 func emptyLine(kind string, raw json.RawMessage) Line {
-	return Line{K: kind, Case: raw, Res: "OK", Exact: true, Tris: [][]int{}, Pos: [][]int{}, Fd: []int{}, Cls: []int{}, Nrm: [][]int{}}
+	return Line{K: kind, Case: raw, Res: "OK", Exact: true, Tris: [][]int{}, Pos: [][]int{}, Fd: []int{}, Off: [][]int{}, Cls: []int{}, Nrm: [][]int{}}
 }
 
 func v3(p []int, unit float64) vector3.Float64 {
